@@ -100,6 +100,19 @@ example : ∃ t cfg, root.twc [S "a"] = .ok (t, cfg) ∧
     getLeaf [S "sec", S "z"] cfg = some (.i 3) ∧ getLeaf [S "kb"] cfg = some (.i 1) :=
   ⟨_, _, root_a_eval, by decide⟩
 
+/-- the default-sub-collection shortcut `a`, the default-task shortcut `a.b` and the alias `a.b.tt` all give
+    what the primary name `a.b.t` gives (before the repair of the empty-name branch, `a` lost `b`'s settings) -/
+example : root.twc [S "a"] = root.twc [S "a", S "b", S "t"] ∧ root.twc [S "a", S "b"] = root.twc [S "a", S "b", S "t"] ∧
+    root.twc [S "a", S "b", S "tt"] = root.twc [S "a", S "b", S "t"] :=
+  have he : ([S "a", S "b", S "t"], [[S "a", S "b", S "tt"], [S "a", S "b"], [S "a"]]) ∈ taskNames root := by decide
+  ⟨same_for_alias_and_default_shortcut root (by decide) _ he _ (by decide),
+   same_for_alias_and_default_shortcut root (by decide) _ he _ (by decide),
+   same_for_alias_and_default_shortcut root (by decide) _ he _ (by decide)⟩
+
+/-- the sibling `a.sib` (with clashing settings) can be replaced by anything: nothing changes for `a` -/
+example : (graft [S "a", S "sib"] b root).twc [S "a"] = root.twc [S "a"] :=
+  siblings_contribute_nothing [S "a", S "sib"] b root [S "a"] (by decide)
+
 /-- before the repair (`dict(config, **ours)`) the inner setting `sec.x` was lost under the outer `sec`;
     the recursive merge keeps it -/
 theorem shallow_merge_counterexample :
